@@ -184,6 +184,23 @@ def run(ctx):
             ctx.ob('C04.3', f, 'cache-result:' + s.name, verdict is None,
                    '%s result is consumed by %s%s' % (s.name, ' > '.join(chain) or 'match', '' if verdict is None else ' — ' + verdict), line=s.line)
     ctx.floor('C04.3', 'cache-read calls in ContinuityStore', n, 15)
+    # ---------------------------------------------------------------- C04.13 (the same clause one layer down)
+    ctx.rule('C04.13', 'inside the cache module a cache read (io::Result<Option<_>> of a sibling method) is matched or propagated, never '
+             'unwrapped and never replaced by a default: a window whose head seq falls back to the anchor or to the last frame of the '
+             'messages+runs sidecar when the full sidecar is unreadable moves the recorded cut point with the state of the caches '
+             '(the second site of the repaired F-C04-headseq).')
+    n13 = 0
+    for f in P.find_fns(r'^ripd::continuity_stream_cache::'):
+        for s in f.calls(CACHE_READ):
+            rty = P.sigs.get(s.callee, {}).get('output', '')
+            if not rty.startswith('core::result::Result<core::option::Option<'):
+                continue
+            n13 += 1
+            chain, verdict = consumption(f, s)
+            bad = verdict is not None and 'propagated with `?`' not in verdict
+            ctx.ob('C04.13', f, 'cache-result:' + s.name, not bad,
+                   '%s result is consumed by %s%s' % (s.name, ' > '.join(chain) or 'match / return', '' if not bad else ' — ' + verdict), line=s.line)
+    ctx.floor('C04.13', 'cache-read calls inside the cache module', n13, 18)
     c0412(ctx)
     c044(ctx)
 
